@@ -36,6 +36,7 @@ def template_check(repo, chk, rule, qual, name, what, ref=None, keep=()):
     nested = tail.count('.') >= (2 if fi.cls else 1)
     ok, missing, extra = compare(fi, template_func(ref or ref_source(), name, closure=nested), keep=keep)
     extra = [e for e in extra if not benign_extra(e)]
+    missing = [e for e in missing if not benign_extra(e)]      # a log line that went away (or moved) changes no result
     ok = not missing and not extra
     if ok:
         chk.equiv.add(fi.qual)
